@@ -51,7 +51,7 @@ def gen_case(rng, i):
     if share and inj and rng.random() < 0.6:
         # a violation on one of several mocks sharing a file, first / middle / last in source order
         inj = {"stage": rng.choice(["schema-invalid-iface", "schema-invalid-iface", "template-exec", "template-parse"]), "file": rng.choice([1, 1, n, rng.randint(1, n)])}
-    return {"kind": "write", "i": i, "n": n, "files": files, "share": share, "filename_subdir": rng.random() < 0.2, "line_directive": rng.random() < 0.12, "env_force": rng.choice([None, None, True, False]), "root_force": rng.choice([None, True, False, True]),
+    return {"kind": "write", "i": i, "n": n, "files": files, "share": share, "struct_in_filename": rng.random() < 0.2, "filename_subdir": rng.random() < 0.2, "line_directive": rng.random() < 0.12, "env_force": rng.choice([None, None, True, False]), "root_force": rng.choice([None, True, False, True]),
             "pkg_force": rng.choice([None, None, True, False]), "inj": inj, "formatter": rng.choice(["goimports", "gofmt", "noop"])}
 
 
@@ -69,7 +69,9 @@ def build(case, root, server, with_injection, all_force):
         odir = "{{.InterfaceDir}}/gen"
         oprefix = {"p": "p/gen/", "p2": "p2/gen/"}
     fdir = "gen/" if case.get("filename_subdir") else ""   # a filename with a directory component: the designated path is Clean(dir/filename)
-    cfg = {"dir": odir, "filename": fdir + "m_{{.InterfaceName}}.go", "pkgname": "mocks", "formatter": case["formatter"]}
+    # "struct_in_filename": the file name goes through {{.StructName}}, whose own default is templated (a second rendering round next to constant parameters)
+    sname = (lambda n: "Mock" + n) if case.get("struct_in_filename") else (lambda n: n)
+    cfg = {"dir": odir, "filename": fdir + ("m_{{.StructName}}.go" if case.get("struct_in_filename") else "m_{{.InterfaceName}}.go"), "pkgname": "mocks", "formatter": case["formatter"]}
     if all_force:
         cfg["force-file-write"] = True
     elif case["root_force"] is not None:
@@ -91,6 +93,18 @@ def build(case, root, server, with_injection, all_force):
             ic["template"] = "file://tm/missing.templ" if inj["stage"].startswith("template-missing") else "http://127.0.0.1:%d/nope/%d/t.templ" % (server.http, case["i"])
             ic["require-template-schema-exists"] = False
             ic["formatter"] = "gofmt" if case["formatter"] == "goimports" else case["formatter"]   # a formatter that would accept an empty file
+        elif case["inj"] and case["inj"]["stage"] == "schema-invalid-shared-template":
+            # every file of the package is rendered by one custom template with a schema beside it; the others waive the schema (and carry data it forbids),
+            # the injected one requires it (the default) and carries data it rejects: that file - and only that file - must fail, whichever file is rendered first
+            files["tm/shared.templ"] = "package {{.PkgName}}\n\n{{range .Interfaces}}type {{.StructName}} struct{}\n{{end}}"
+            files["tm/shared.templ.schema.json"] = json.dumps({"$schema": "http://json-schema.org/draft-07/schema#", "type": "object", "additionalProperties": False,
+                                                               "properties": {"greeting": {"type": "string"}}})
+            ic["template"] = "file://tm/shared.templ"
+            if case["inj"]["file"] == k:
+                ic["template-data"] = {"greeting": 42 if inj else "fine"}   # the fault-free reference run renders the same configuration with conforming data
+            else:
+                ic["require-template-schema-exists"] = False
+                ic["template-data"] = {"greeting": "legacy", "forbidden-by-schema": k}
         elif inj and inj["file"] == k:
             st = inj["stage"]
             if st == "template-missing":
@@ -124,14 +138,14 @@ def build(case, root, server, with_injection, all_force):
                 ic["require-template-schema-exists"] = False
                 ic["formatter"] = "gofmt" if case["formatter"] == "noop" else case["formatter"]
         p["interfaces"]["I%d" % k] = {"config": ic}
-        outputs[k] = (oprefix["p"] + fdir + "m_all.go") if share else oprefix["p"] + "%sm_I%d.go" % (fdir, k)
+        outputs[k] = (oprefix["p"] + fdir + "m_all.go") if share else oprefix["p"] + "%sm_%s.go" % (fdir, sname("I%d" % k))
     cfg["packages"] = {MOD + "/p": p}
     # a second package with one file; the file-level schema violation lives here
     p2 = {"config": {}, "interfaces": {"Q": None}}
     if inj and inj["stage"] == "schema-invalid-file":
         p2["config"]["template-data"] = {"unroll-variadic": "not a boolean"}
     cfg["packages"][MOD + "/p2"] = p2
-    outputs["q"] = oprefix["p2"] + fdir + "m_Q.go"
+    outputs["q"] = oprefix["p2"] + fdir + "m_%s.go" % sname("Q")
     files[".mockery.yml"] = json.dumps(cfg)
     return files, cfg, outputs
 
@@ -328,6 +342,14 @@ def body(ctx, replay=None):
             for j, (st0, rf) in enumerate((("absent", None), ("prev-long", True))):
                 cases.append({"kind": "write", "i": 34000 + j, "n": 2, "inj": None, "formatter": "gofmt", "line_directive": True,
                               "files": [{"state": st0, "force": None, "template": "testify"}, {"state": "absent", "force": None, "template": "matryer"}], "root_force": rf, "pkg_force": None})
+            # one custom template shared by the 4 files of the package, only one of them requires its schema - and violates it
+            for j, (st0, pos, fm) in enumerate((a, b, c) for a in ("prev-long", "user", "absent") for b in (1, 3) for c in ("noop", "gofmt")):
+                cases.append({"kind": "write", "i": 36000 + j, "n": 4, "inj": {"stage": "schema-invalid-shared-template", "file": pos}, "formatter": fm,
+                              "files": [{"state": st0, "force": None, "template": "testify"}] * 4, "root_force": True, "pkg_force": None})
+            # the file name refers to {{.StructName}} (itself templated by default) next to constant parameters: the designated files are those of the fixpoint
+            for j, (st0, rf, nn) in enumerate((("absent", None, 5), ("prev-long", True, 5), ("absent", None, 6), ("user", True, 4), ("absent", True, 6), ("prev-short", True, 5))):
+                cases.append({"kind": "write", "i": 35000 + j, "n": nn, "inj": None, "formatter": ["noop", "gofmt"][j % 2], "struct_in_filename": True,
+                              "files": [{"state": st0 if st0 in STATES else "absent", "force": None, "template": ["testify", "matryer"][k % 2]} for k in range(nn)], "root_force": rf, "pkg_force": None})
             # filename with a directory component, with a user file at <dir>/<basename> that is NOT an output of the run
             for j, (st0, rf) in enumerate((("absent", None), ("user", True), ("prev-long", True))):
                 cases.append({"kind": "write", "i": 33000 + j, "n": 2, "inj": None, "formatter": "noop", "filename_subdir": True, "decoy_at_basename": True,
